@@ -291,12 +291,17 @@ def run_rv(ctx, sd, exe, q):
 def run_r3(ctx, sd, exe, q):
     # ---- R3 random real histories validated by TLC
     tr = os.path.join(sd, "trace.ndjson")
-    nt, ln, nk = (60, 60, 6) if q else (1200, 80, 6)
+    nt, ln, nk = (45, 60, 6) if q else (1200, 80, 6)
     r3 = ctx.vh(exe, ["record", ctx.seed, nt, ln, nk, tr])
-    st = validate(ctx, sd, tr, nk, int(r3.stats.get("events", 0)), "random history on the real staking contract")
+    st = validate(ctx, sd, tr, nk, int(r3.stats.get("events", 0)), "directed/random history on the real staking contract")
     if st in ("accepted", "drift"):
         ctx.cov(traces_validated_against_impl=nt, evaluations=int(r3.stats.get("events", 0)))
-    ctx.cov(r3_actions=r3.stats.get("actions"))
+    ctx.cov(r3_actions=r3.stats.get("actions"), r3_unjail_insert_places=r3.stats.get("unjail_places"))
+    # vacuity guard: the recorded histories must reach every insertion branch of insertAfterLastJailed on the real contract
+    places = r3.stats.get("unjail_places") or {}
+    missing = [b for b in ("unjail-into-empty-queue", "unjail-middle", "unjail-end") if not places.get(b)]
+    if missing:
+        ctx.broken.append("vacuity guard: no recorded history reached %s" % ", ".join(missing))
 
     if not q and st == "accepted":
         # binding self-tests: a corrupted observation must be rejected / must trip the invariant
